@@ -434,7 +434,7 @@ class Check(common.Check):
                 elif r < 0.92:
                     res = 'x'
                 else:
-                    res = 'n'
+                    res = G.choice(['n', 'bt', 'bf', 'bf', 'o'])      # only a number re-schedules
                 behs.append(' '.join(atoms + [res]))
             lines.append(f'task {t} {G.choice("FFFR")} ' + ' | '.join(behs))
         for i in range(ntempo):
@@ -485,7 +485,7 @@ class Check(common.Check):
         n = G.randint(1, 3)
         lines = [f'task 0 {G.choice("FR")} t0:T:{fr(slow)} ' + G.choice(['d', 'r:1/4', 'x'])]
         for i in range(1, n + 1):
-            lines.append(f'task {i} {G.choice("FR")} ' + G.choice(['d', 'r:1/8', 'r:1 | d']))
+            lines.append(f'task {i} {G.choice("FR")} ' + G.choice(['d', 'r:1/8', 'r:1 | d', 'bf', 'bt | bf']))
         lines.append(f'new 0 {fr(rate)}')
         lines.append(f'op m t0 s {fr(k1)} 0')
         for i in range(1, n + 1):
